@@ -6,6 +6,7 @@
 package main
 
 import (
+	"encoding/json"
 	"fmt"
 	"os"
 	"runtime"
@@ -51,6 +52,29 @@ func main() {
 		}
 		replay = os.Args[3]
 		tier = "quick"
+		// a replay file names the tier and seed of the run that wrote it; the case
+		// lists of every check are fixed by these two, so running the check again
+		// with them reproduces the reported violation (or shows it gone)
+		if b, err := os.ReadFile(replay); err == nil {
+			var rf struct {
+				Seed *int64 `json:"seed"`
+				Tier string `json:"tier"`
+				Sig  string `json:"sig"`
+			}
+			if json.Unmarshal(b, &rf) == nil {
+				if rf.Tier == "quick" || rf.Tier == "thorough" {
+					tier = rf.Tier
+				}
+				if rf.Seed != nil && os.Getenv("VERIF_SEED") == "" {
+					os.Setenv("VERIF_SEED", strconv.FormatInt(*rf.Seed, 10))
+				}
+				fmt.Printf("REPLAY property=%s tier=%s seed=%s signature=%s\n", id, tier, os.Getenv("VERIF_SEED"), rf.Sig)
+			}
+		} else {
+			fmt.Fprintln(os.Stderr, "replay file unreadable:", err)
+			os.Exit(2)
+		}
+		os.Setenv("VERIF_EVIDENCE_SUFFIX", ".replay")
 	default:
 		fmt.Fprintln(os.Stderr, "unknown mode", mode)
 		os.Exit(2)
